@@ -27,7 +27,7 @@ OPT = [f for f in model.ALL_FIELDS if f != "resolution"]
 def required(tier):
     return ["all_fields_present_and_absent", "missing_resolution_raises", "value_contains_other_field_line", "value_starts_or_ends_with_quote",
             "value_with_inner_trailing_blank", "via_full_chart", "cross_field_probe", "resolution_first", "resolution_last", "resolution_zero_decoded",
-            "value_not_unicode_normalised", "concurrent_stage"]
+            "value_not_unicode_normalised", "concurrent_stage", "by_path_non_ascii_straddling_2^k", "integer_above_2^53"]
 
 
 def shards(tier, seed):
@@ -80,6 +80,8 @@ def classes(rec, md, lines):
                 rec.cls("value_with_inner_trailing_blank")
             if unicodedata.normalize("NFC", v) != v or unicodedata.normalize("NFKC", v) != v:
                 rec.cls("value_not_unicode_normalised")
+        if isinstance(v, int) and v > 2**53:
+            rec.cls("integer_above_2^53")
     if lines and lines[0].strip().startswith("Resolution"):
         rec.cls("resolution_first")
     if lines and lines[-1].strip().startswith("Resolution"):
@@ -124,7 +126,7 @@ def run_shard(shard, rec, tier, seed):
     for i in range(shard["count"]):
         rng = harness.rng_for(seed, ID, shard["name"], i)
         prof = "hostile" if i % 3 else "realistic"
-        resolution = gen.gen_resolution(rng, prof) if i % 25 != 7 else rng.choice([0, 0, 10**12])  # "forall non-negative integers"
+        resolution = gen.gen_resolution(rng, prof) if i % 25 != 7 else rng.choice([0, 0, 10**12, 2**53 + 1, 10**30 + 7])  # "forall non-negative integers"
         md, lines = gen.gen_metadata(rng, prof, resolution, res_pos=["first", "last", None][i % 3] if i % 2 else None)
         via = i % 4 == 0 and resolution > 0
         if resolution == 0:
@@ -158,7 +160,50 @@ def run_shard(shard, rec, tier, seed):
             break
     if not rec.full:
         concurrent_stage(rec, kept)
+    if not rec.full and shard["name"].endswith(("-0", "-1")):
+        by_path_alignment(rec, harness.rng_for(seed, ID, shard["name"], "path"))
     harness.finish(rec)
+
+
+def by_path_alignment(rec, rng):
+    """[Song] read by path: non-ASCII values whose UTF-8 bytes straddle byte offsets 2^k (k = 9..13), no BOM and BOM"""
+    import pathlib
+    import shutil
+    import tempfile
+
+    d = tempfile.mkdtemp(prefix="vmon-c10-")
+    try:
+        for k in (9, 10, 11, 12, 13):
+            for back in (1, 2):
+                for bom in (False, True):
+                    md = {"resolution": 192, "artist": "Mot\u00f6rhead \u4e16\u754c", "charter": "caf\u00e9"}
+                    head = "[Song]\n{\n  Resolution = 192\n  Artist = \"Mot\u00f6rhead \u4e16\u754c\"\n  Charter = \"caf\u00e9\"\n  Name = \""
+                    fill = 2**k - back - len(head.encode("utf-8")) - (3 if bom else 0)
+                    if fill < 0:
+                        continue
+                    md["name"] = "z" * fill + "\u4e16\u754c!"
+                    text = head + md["name"] + "\"\n}\n[SyncTrack]\n{\n  0 = TS 4\n  0 = B 120000\n}\n[Events]\n{\n}\n"
+                    raw = (b"\xef\xbb\xbf" if bom else b"") + text.encode("utf-8")
+                    p = pathlib.Path(d) / "c.chart"
+                    p.write_bytes(raw)
+                    rec.ev()
+                    case = {"lines": text.split("\n")[2:6], "md": md, "via_chart": True, "by_path_hex_len": len(raw)}
+                    try:
+                        got = observe.observe_metadata(harness.Chart.from_filepath(p).metadata)
+                    except Exception as e:  # noqa
+                        rec.violation("well-formed-section-rejected", f"read by path ({'BOM' if bom else 'no BOM'}, non-ASCII bytes straddling "
+                                      f"byte 2^{k}): {harness.exc_str(e)}", case, "by-path-rejected")
+                        return
+                    exp = model.expected_metadata(md)
+                    bad = [(f, exp[f][-12:] if isinstance(exp[f], str) else exp[f], got.get(f)[-12:] if isinstance(got.get(f), str) else got.get(f))
+                           for f in model.ALL_FIELDS if got.get(f) != exp[f]]
+                    if bad:
+                        rec.violation("field", f"read by path ({'BOM' if bom else 'no BOM'}), a multi-byte character straddling byte offset 2^{k}: "
+                                      f"fields differ (tails) {bad[:3]}", case, "field:by-path-non-ascii")
+                        return
+        rec.cls("by_path_non_ascii_straddling_2^k")
+    finally:
+        shutil.rmtree(d, ignore_errors=True)
 
 
 def concurrent_stage(rec, kept):
@@ -219,6 +264,11 @@ def replay(case, rec):
             concurrent_stage(rec, kept)
             if rec.violations:
                 return
+    if "by_path_hex_len" in case:
+        import random
+
+        by_path_alignment(rec, random.Random(0))
+        return
     if case.get("md") is None:
         missing_resolution(rec, None, case["lines"])
     else:
